@@ -557,6 +557,7 @@ fn emit_fn(cx: &mut Ctx, specs: &mut Specs, em: &mut Emitter, ex: &Extract, file
     rw.self_to_this = (mut_self && !lifted) || (fd.tr.is_some() && fd.im.is_none() && recv.is_some());
     rw.lift_prefix = { let p = match ex.opt("key") { Some(k) => k.replace("::", "__").replace('@', "_"), None => ex.path.rsplit('@').next().unwrap().replace("::", "__") }; let p: String = p.chars().map(|c| if c.is_ascii_alphanumeric() || c == '_' { c } else { '_' }).collect(); if lifted { format!("{}__async", p) } else { p } };
     rw.typed_ctors = specs.sections.keys().filter_map(|k| k.strip_prefix("sig ").map(|s| s.to_string())).collect();
+    rw.ctor_param_names = ctor_param_names_of(specs);
     rw.typed_caps = specs.sections.keys().filter_map(|k| k.strip_prefix("captype ").map(|s| s.to_string())).collect();
     for inp in &f.sig.inputs { if let syn::FnArg::Typed(pt) = inp { if let syn::Pat::Ident(pi) = &*pt.pat { if let syn::Type::ImplTrait(it) = &*pt.ty { if it.bounds.iter().any(|b| if let syn::TypeParamBound::Trait(tb) = b { tb.path.segments.last().map(|s| s.ident == "Into").unwrap_or(false) } else { false }) { rw.into_params.insert(pi.ident.to_string()); } } } } }
     for inp in &f.sig.inputs { if let syn::FnArg::Typed(pt) = inp { if let syn::Pat::Ident(pi) = &*pt.pat { let mut ty = (*pt.ty).clone(); let mut lt = vec![]; rewrite::map_param_type(&mut ty, rw.cx, &mut lt); rw.local_types.insert(pi.ident.to_string(), tidy(&ty.to_token_stream().to_string())); } } }
@@ -988,9 +989,10 @@ fn emit_lifted(cx: &mut Ctx, specs: &mut Specs, em: &mut Emitter, gens: &[&syn::
             cx.cur_fn = lc.name.clone(); let fresh = cx.dropbody.insert(lc.name.clone());
             let typed_ctors: BTreeSet<String> = specs.sections.keys().filter_map(|k| k.strip_prefix("sig ").map(|s| s.to_string())).collect();
             let typed_caps: BTreeSet<String> = specs.sections.keys().filter_map(|k| k.strip_prefix("captype ").map(|s| s.to_string())).collect();
+            let cpn = ctor_param_names_of(specs);
             let gen_idents: Vec<String> = { let cl = closure_generics(gens, cx); gens.iter().flat_map(|g| g.params.iter().filter_map(|p| if let syn::GenericParam::Type(t) = p { Some(t.ident.to_string()) } else { None }).collect::<Vec<_>>()).filter(|n| !cl.contains_key(n)).collect() };
             let mut rw = Rw::new(cx, false, binders, lc.name.clone());
-            rw.lift_prefix = lc.name.clone(); rw.typed_ctors = typed_ctors; rw.typed_caps = typed_caps; rw.gen_idents = gen_idents;
+            rw.lift_prefix = lc.name.clone(); rw.typed_ctors = typed_ctors; rw.typed_caps = typed_caps; rw.gen_idents = gen_idents; rw.ctor_param_names = cpn;
             rw.visit_block_mut(&mut block);
             let more = std::mem::take(&mut rw.lifted_closures);
             drop(rw);
@@ -1073,6 +1075,28 @@ fn emit_lifted(cx: &mut Ctx, specs: &mut Specs, em: &mut Emitter, gens: &[&syn::
     cx.cur_fn = String::new();
     r
 }
+fn ctor_param_names_of(specs: &Specs) -> BTreeMap<String, Vec<String>> {
+    let mut out: BTreeMap<String, Vec<String>> = BTreeMap::new();
+    for (k, v) in specs.sections.iter() { if let Some(n) = k.strip_prefix("sig ") { if n.ends_with("__new") && !v.contains('$') {
+        let inner = v.trim().trim_start_matches('(').trim_end_matches(')');
+        let mut names = vec![]; let mut depth = 0i32; let mut cur = String::new();
+        for ch in inner.chars() { match ch { '<' | '(' | '[' => { depth += 1; cur.push(ch); } '>' | ')' | ']' => { depth -= 1; cur.push(ch); } ',' if depth == 0 => { names.push(cur.clone()); cur.clear(); } _ => cur.push(ch) } }
+        if !cur.trim().is_empty() { names.push(cur); }
+        out.insert(n.to_string(), names.iter().map(|p| p.split(':').next().unwrap_or("").trim().trim_start_matches("mut ").to_string()).collect());
+    } } }
+    out
+}
+/// a method is called on the bare identifier `n` somewhere in the block (it may need `&mut n`); cheap and conservative
+fn uses_mutably(b: &syn::Block, n: &str) -> bool {
+    struct V<'a>(&'a str, bool);
+    impl<'a, 'b> syn::visit::Visit<'b> for V<'a> {
+        fn visit_expr_method_call(&mut self, m: &'b syn::ExprMethodCall) {
+            if let syn::Expr::Path(p) = &*m.receiver { if p.path.is_ident(self.0) { let mn = m.method.to_string(); if matches!(mn.as_str(), "cancellation" | "close" | "poll_canceled" | "start_send" | "try_send" | "poll_ready" | "try_next" | "poll_next" | "poll_unpin" | "as_mut") { self.1 = true; } } }
+            syn::visit::visit_expr_method_call(self, m);
+        }
+    }
+    let mut v = V(n, false); syn::visit::Visit::visit_block(&mut v, b); v.1
+}
 fn emit_lifted_body(cx: &mut Ctx, specs: &mut Specs, em: &mut Emitter, gens: &[&syn::Generics], lc: &rewrite::LiftedClosure, file: &str, sig: String, gtxt_all: String, wtxt_all: String) -> Vec<rewrite::LiftedClosure> {
     let drop_this = cx.dropbody.contains(&lc.name);
     let mut block = lc.body.clone();
@@ -1096,6 +1120,7 @@ fn emit_lifted_body(cx: &mut Ctx, specs: &mut Specs, em: &mut Emitter, gens: &[&
     let mut rw = Rw::new(cx, false, binders, lc.name.clone());
     rw.lift_prefix = lc.name.clone();
     rw.typed_ctors = specs.sections.keys().filter_map(|k| k.strip_prefix("sig ").map(|s| s.to_string())).collect();
+    rw.ctor_param_names = ctor_param_names_of(specs);
     rw.typed_caps = specs.sections.keys().filter_map(|k| k.strip_prefix("captype ").map(|s| s.to_string())).collect();
     rw.gen_idents = { let cl = closure_generics(gens, rw.cx); gens.iter().flat_map(|g| g.params.iter().filter_map(|p| if let syn::GenericParam::Type(t) = p { Some(t.ident.to_string()) } else { None }).collect::<Vec<_>>()).filter(|n| !cl.contains_key(n)).collect() };
     rw.visit_block_mut(&mut block);
@@ -1135,6 +1160,16 @@ fn emit_lifted_body(cx: &mut Ctx, specs: &mut Specs, em: &mut Emitter, gens: &[&
         } }
     }
     let gtxt_all = if extra_gen.is_empty() { gtxt_all.clone() } else { let g = { let t = gtxt_all.trim(); if t.len() >= 2 { t[1..t.len() - 1].to_string() } else { String::new() } }; let mut all: Vec<String> = if g.is_empty() { vec![] } else { vec![g] }; all.extend(extra_gen); format!("<{}>", all.join(", ")) };
+    // L1v: a capture the closure owns (taken by value) may be used mutably by its body (`tx.cancellation()`, `rx.close()`): it is re-bound
+    // as `let mut c = c;` at the top of the lifted body; the contract keeps talking about the parameter
+    {
+        let mut pieces: Vec<String> = vec![]; let mut depth = 0i32; let mut cur = String::new();
+        for ch in params.chars() { match ch { '<' | '(' | '[' => { depth += 1; cur.push(ch); } '>' | ')' | ']' => { depth -= 1; cur.push(ch); } ',' if depth == 0 => { pieces.push(cur.clone()); cur.clear(); } _ => cur.push(ch) } }
+        if !cur.trim().is_empty() { pieces.push(cur); }
+        let mut rebinds: Vec<syn::Stmt> = vec![];
+        for pc in &pieces { if let Some((n, t)) = pc.split_once(':') { let n = n.trim(); let t = t.trim(); if !n.starts_with("mut ") && !t.starts_with('&') && !t.starts_with("impl") && lc.captures.iter().any(|c| c == n) && uses_mutably(&block, n) { let id = syn::Ident::new(n, proc_macro2::Span::call_site()); rebinds.push(syn::parse_quote!(let mut #id = #id;)); } } }
+        if !rebinds.is_empty() { cx.fire("L1v"); for (i, st) in rebinds.into_iter().enumerate() { block.stmts.insert(i, st); } }
+    }
     let ghost = if specs.get(&format!("pure {}", lc.name)).is_some() { String::new() } else { format!("{}Tracked(w): Tracked<&mut World>", if params.trim().is_empty() { "" } else { ", " }) };
     em.raw(&format!("pub fn {}{}({}{}){}{}", lc.name, gtxt_all, params, ghost, match &ret { Some(r) => format!(" -> (r: {})", r), None => String::new() }, wtxt_all));
     if let Some(sp) = specs.get(&format!("fn {}", lc.name)) { em.raw_block(&positional(sp, lc), ""); }
